@@ -198,19 +198,31 @@ def run_random(family, seed, tier='quick'):
   cfg = family.gen(rng, tier)
   cfg.setdefault('pyseed', rng.randrange(1 << 30))
   stay = cfg.get('sim', {}).get('stay', 0.0)
-  chooser = sched.RandomChooser(rng.randrange(1 << 62), stay)
+  sched_seed = rng.randrange(1 << 62)
   # a third of the fine-grained runs pre-empt at every line, not only at
   # function entries (drawn last: every other draw stays as it was)
   if cfg.get('sim', {}).get('fine') is True and rng.random() < 0.33:
     cfg['sim']['fine'] = 'line'
-  return cfg, execute(family, cfg, chooser)
+  # a quarter of the runs are scheduled by priorities with 1-3 change points
+  # (PCT) instead of a uniform choice at every step
+  # (a family may have chosen already)
+  pct_draw = (rng.random() < 0.25, rng.choice([1, 2, 2, 3]))
+  if 'pct' not in cfg.setdefault('sim', {}) and pct_draw[0]:
+    cfg['sim']['pct'] = pct_draw[1]
+  return cfg, execute(family, cfg, _chooser(cfg, sched_seed))
+
+
+def _chooser(cfg, sched_seed):
+  from simkit import sched
+  simcfg = cfg.get('sim', {})
+  if simcfg.get('pct'):
+    return sched.PctChooser(sched_seed, depth=simcfg['pct'])
+  return sched.RandomChooser(sched_seed, simcfg.get('stay', 0.0))
 
 
 def run_cfg(family, cfg, sched_seed):
   """Explicit cfg, random schedule from sched_seed (used by the shrinker)."""
-  from simkit import sched
-  stay = cfg.get('sim', {}).get('stay', 0.0)
-  return execute(family, cfg, sched.RandomChooser(sched_seed, stay))
+  return execute(family, cfg, _chooser(cfg, sched_seed))
 
 
 def run_replay(family, cfg, decisions):
